@@ -451,6 +451,23 @@ impl<'tcx> Cx<'tcx> {
             }
         }
         let _ = write!(out, ",\"name\":{}", esc(&tcx.opt_item_name(did).map(|s| s.to_string()).unwrap_or_default()));
+        // trait bounds on type parameters (own + parents'), for pruning class-hierarchy resolution
+        {
+            let root = tcx.typeck_root_def_id(did);
+            let preds = tcx.predicates_of(root).instantiate_identity(tcx);
+            let mut bounds: Vec<String> = Vec::new();
+            for p in preds.predicates.iter() {
+                let cl = p.skip_norm_wip();
+                if let Some(tp) = cl.as_trait_clause() {
+                    let tp = tp.skip_binder();
+                    let st = tp.self_ty();
+                    if let ty::Param(_) = st.kind() {
+                        bounds.push(format!("[{},{}]", esc(&self.ty_str(st)), esc(&self.path(tp.def_id()))));
+                    }
+                }
+            }
+            let _ = write!(out, ",\"bounds\":[{}]", join(&bounds));
+        }
         // locals
         let mut locals: Vec<String> = Vec::new();
         for (_l, d) in body.local_decls.iter_enumerated() {
